@@ -118,6 +118,25 @@ impl Prioritize {
     ) {
         let span = tracing::trace_span!("Prioritize::queue_frame", ?stream.id);
         let _e = span.enter();
+        #[cfg(feature = "verif-hooks")]
+        crate::verif::ev("prio.queue_frame", || {
+            let (kind, eos, info, extra) = match &frame {
+                Frame::Data(_) => (0, 0, 0, 0),
+                Frame::Headers(h) => (1, h.is_end_stream() as i64, h.is_informational() as i64, 0),
+                Frame::PushPromise(p) => (2, 0, 0, u32::from(p.promised_id()) as i64),
+                Frame::Reset(r) => (3, 0, 0, u32::from(r.reason()) as i64),
+                _ => (9, 0, 0, 0),
+            };
+            vec![
+                stream.verif_serial,
+                u32::from(stream.id) as i64,
+                kind,
+                eos,
+                info,
+                stream.buffered_send_data as i64,
+                extra,
+            ]
+        });
         // Queue the frame in the buffer
         stream.pending_send.push_back(buffer, frame);
         self.schedule_send(stream, task);
@@ -131,6 +150,8 @@ impl Prioritize {
             self.pending_send.push(stream);
 
             // Notify the connection.
+            #[cfg(feature = "verif-hooks")]
+            crate::verif::ev("conn.task_wake", || vec![1, task.is_some() as i64]);
             if let Some(task) = task.take() {
                 task.wake();
             }
@@ -639,6 +660,10 @@ impl Prioritize {
         B: Buf,
     {
         // Reclaim any frame that has previously been written
+        #[cfg(feature = "verif-hooks")]
+        let _verif = crate::verif::enter("prio.buffer_pending", || {
+            vec![self.verif_in_flight_tag(), dst.has_send_capacity() as i64]
+        });
         self.reclaim_frame(buffer, store, dst);
 
         // The max frame length
@@ -663,6 +688,17 @@ impl Prioritize {
                     debug_assert_eq!(self.in_flight_data_frame, InFlightData::Nothing);
                     if let Frame::Data(ref frame) = frame {
                         self.in_flight_data_frame = InFlightData::DataFrame(frame.payload().stream);
+                        #[cfg(feature = "verif-hooks")]
+                        crate::verif::ev("prio.stage", || {
+                            vec![
+                                frame.payload().stream.verif_stream_id(),
+                                frame.payload().stream.verif_slot(),
+                                frame.payload().inner.limit() as i64,
+                                frame.payload().inner.get_ref().remaining() as i64,
+                                frame.payload().end_of_stream as i64,
+                                store.verif_key_is_live(frame.payload().stream) as i64,
+                            ]
+                        });
                     }
                     dst.buffer(frame).expect("invalid frame");
 
@@ -688,6 +724,9 @@ impl Prioritize {
     where
         B: Buf,
     {
+        #[cfg(feature = "verif-hooks")]
+        let _verif =
+            crate::verif::enter("prio.reclaim_written", || vec![self.verif_in_flight_tag()]);
         self.reclaim_frame(buffer, store, dst)
     }
 
@@ -735,6 +774,18 @@ impl Prioritize {
 
         let mut eos = false;
         let key = frame.payload().stream;
+        #[cfg(feature = "verif-hooks")]
+        crate::verif::ev("prio.reclaim", || {
+            let mut v = vec![
+                key.verif_stream_id(),
+                key.verif_slot(),
+                frame.payload().inner.get_ref().remaining() as i64,
+                frame.payload().end_of_stream as i64,
+                store.verif_key_is_live(key) as i64,
+            ];
+            v.extend(self.verif_in_flight());
+            v
+        });
 
         match mem::replace(&mut self.in_flight_data_frame, InFlightData::Nothing) {
             InFlightData::Nothing => panic!("wasn't expecting a frame to reclaim"),
@@ -776,6 +827,16 @@ impl Prioritize {
         buffer: &mut Buffer<Frame<B>>,
         stream: &mut store::Ptr,
     ) {
+        #[cfg(feature = "verif-hooks")]
+        crate::verif::ev("prio.push_back", || {
+            vec![
+                stream.verif_serial,
+                u32::from(stream.id) as i64,
+                stream.key().verif_slot(),
+                stream.buffered_send_data as i64,
+                (stream.send_flow.available() > 0) as i64,
+            ]
+        });
         // Push the frame to the front of the stream's deque
         stream.pending_send.push_front(buffer, frame);
 
@@ -814,6 +875,16 @@ impl Prioritize {
 
         stream.buffered_send_data = 0;
         stream.requested_send_capacity = 0;
+        #[cfg(feature = "verif-hooks")]
+        crate::verif::ev("prio.clear_in_flight", || {
+            let mut v = vec![
+                stream.verif_serial,
+                u32::from(stream.id) as i64,
+                stream.key().verif_slot(),
+            ];
+            v.extend(self.verif_in_flight());
+            v
+        });
         if let InFlightData::DataFrame(key) = self.in_flight_data_frame {
             if stream.key() == key {
                 // This stream could get cleaned up now - don't allow the buffered frame to get reclaimed.
@@ -1023,6 +1094,14 @@ impl Prioritize {
                             // PUSH_PROMISE is still queued here. The promise is
                             // moot then; drop it instead of unwrapping `None`.
                             if stream.store_mut().find_mut(&pp.promised_id()).is_none() {
+                                #[cfg(feature = "verif-hooks")]
+                                crate::verif::ev("prio.pop_drop_push", || {
+                                    vec![
+                                        stream.verif_serial,
+                                        u32::from(stream.id) as i64,
+                                        u32::from(pp.promised_id()) as i64,
+                                    ]
+                                });
                                 if !stream.pending_send.is_empty()
                                     || stream.state.is_scheduled_reset()
                                 {
@@ -1057,6 +1136,14 @@ impl Prioritize {
                             if let Some(reason) = stream.state.get_scheduled_reset() {
                                 stream.set_reset(reason, Initiator::Library);
 
+                                #[cfg(feature = "verif-hooks")]
+                                crate::verif::ev("prio.pop_sched_reset", || {
+                                    vec![
+                                        stream.verif_serial,
+                                        u32::from(stream.id) as i64,
+                                        u32::from(reason) as i64,
+                                    ]
+                                });
                                 let frame = frame::Reset::new(stream.id, reason);
                                 Frame::Reset(frame)
                             } else {
@@ -1075,6 +1162,25 @@ impl Prioritize {
                     };
 
                     tracing::trace!("pop_frame; frame={:?}", frame);
+                    #[cfg(feature = "verif-hooks")]
+                    if !matches!(frame, Frame::Data(_)) {
+                        crate::verif::ev("prio.pop_other", || {
+                            let (kind, eos, extra) = match &frame {
+                                Frame::Headers(h) => (1, h.is_end_stream() as i64, 0),
+                                Frame::PushPromise(p) => (2, 0, u32::from(p.promised_id()) as i64),
+                                Frame::Reset(r) => (3, 0, u32::from(r.reason()) as i64),
+                                _ => (9, 0, 0),
+                            };
+                            vec![
+                                stream.verif_serial,
+                                u32::from(stream.id) as i64,
+                                kind,
+                                eos,
+                                stream.buffered_send_data as i64,
+                                extra,
+                            ]
+                        });
+                    }
 
                     if cfg!(debug_assertions) && stream.state.is_idle() {
                         debug_assert!(stream.id > self.last_opened_id);
@@ -1110,6 +1216,10 @@ impl Prioritize {
                 tracing::trace!("schedule_pending_open; stream={:?}", stream.id);
 
                 counts.inc_num_send_streams(&mut stream);
+                #[cfg(feature = "verif-hooks")]
+                crate::verif::ev("prio.pop_pending_open", || {
+                    vec![stream.verif_serial, u32::from(stream.id) as i64]
+                });
                 stream.notify_send();
                 return Some(stream);
             }
@@ -1178,8 +1288,31 @@ impl Prioritize {
                 InFlightData::Drop => 2,
             },
         ));
+        out.push(("in_flight_stream_id", self.verif_in_flight()[1]));
+        out.push(("in_flight_slot", self.verif_in_flight()[2]));
         queues.push(("pending_send", self.pending_send.verif_ids(store)));
         queues.push(("pending_capacity", self.pending_capacity.verif_ids(store)));
         queues.push(("pending_open", self.pending_open.verif_ids(store)));
+    }
+}
+
+#[cfg(feature = "verif-hooks")]
+impl Prioritize {
+    /// 0 Nothing, 1 DataFrame, 2 Drop (verification hook, read-only).
+    fn verif_in_flight_tag(&self) -> i64 {
+        match self.in_flight_data_frame {
+            InFlightData::Nothing => 0,
+            InFlightData::DataFrame(_) => 1,
+            InFlightData::Drop => 2,
+        }
+    }
+
+    /// tag, stream id and slab slot of the in-flight key (-1 when there is none).
+    fn verif_in_flight(&self) -> Vec<i64> {
+        match self.in_flight_data_frame {
+            InFlightData::Nothing => vec![0, -1, -1],
+            InFlightData::DataFrame(k) => vec![1, k.verif_stream_id(), k.verif_slot()],
+            InFlightData::Drop => vec![2, -1, -1],
+        }
     }
 }
